@@ -297,7 +297,6 @@ func rootGlobal(t ir.Term) *ir.Global {
 	}
 }
 
-
 // mutable package-level storage of fc and what each may be used for (frozen, one reason each)
 var mutableGlobals = map[string]string{
 	"keywordMap":      "constant table: keyword spelling -> token (read by index only)",
